@@ -97,6 +97,27 @@ class C13(Prop):
             evs.append(["q", "counters"])
             out.append(Case("multi", "threads" if rng.random() < 0.3 else "local", [("pipe", [pipe])], evs,
                             {"kind": "hot"}))
+        # targeted: ONE stateful operator over hot inputs, subscriptions of clones ALIVE TOGETHER (a later
+        # subscription, or an event of one subscription's second input, must not disturb the state another
+        # subscription has built up: flags, queues, counters created per subscription, not per operator value)
+        singles = [v for v in variants if v[0] != "tap"]
+        for i in range(n // 2):
+            if i % 2 == 0:
+                pipe = [rng.choice(pg.TWO), ["hot", "0"], ["hot", "1"]]
+                nhot = 2
+            else:
+                pipe = rng.choice(singles) + [["hot", "0"]]
+                nhot = 1
+            if rng.random() < 0.3:
+                pipe = rng.choice(singles) + [pipe]
+            evs = [["sub"]]
+            for _ in range(rng.randint(3, 9)):
+                if rng.random() < 0.25:
+                    evs.append(["sub"])
+                else:
+                    evs += pg.rand_events(rng, nhot, 1, malformed=0.1)
+            out.append(Case("multi", "threads" if rng.random() < 0.3 else "local", [("pipe", [pipe])], evs,
+                            {"kind": "hot-together"}))
         return out
 
     def oracle(self, case, lines, model_lines=None):
@@ -124,6 +145,24 @@ class C13(Prop):
                 for tok in b[2:].split(";"):
                     sid, _, n = tok.partition(":")
                     logs.setdefault(int(sid), []).append(n)
+        aux = case.meta.get("_aux")
+        if aux:
+            # independence (C13_independent): subscription j of a hot pipeline sees exactly what it would have
+            # seen alone — the real code run on the same history without the other subscriptions
+            subs = [k for k, e in enumerate(case.events) if e == ["sub"]]
+            for j, (kj, solo) in enumerate(zip(subs, aux)):
+                kept = [k for k, e in enumerate(case.events) if e != ["sub"] or k == kj]
+                alone = []
+                for pos, k in enumerate(kept):
+                    b = solo.get(pos) or ""
+                    if b == "PANIC":
+                        alone = None
+                        break
+                    if b.startswith("o=") and len(b) > 2:
+                        alone += [tok.partition(":")[2] for tok in b[2:].split(";")]
+                if alone is not None and logs.get(j, []) != alone:
+                    return {"kind": "subscriptions-interfere", "event": kj,
+                            "detail": f"subscription {j} saw {logs.get(j, [])}; alone on the same history it sees {alone}"}
         if case.meta.get("kind") == "cold":
             # every subscription (nested ones included) of a cold pipeline sees the same sequence
             total = sum(1 for e in case.events if e[0] == "sub")
@@ -144,6 +183,25 @@ class C13(Prop):
                     return {"kind": "closure-calls", "event": 0,
                             "detail": f"{calls} closure calls, {len(ids)} subscriptions x {cc} closures"}
         return None
+
+    @staticmethod
+    def _is_hot(case):
+        f = case.field("pipe")
+        return bool(f) and "hot" in pg.pipe_heads(f[0])
+
+    def aux_cases(self, case):
+        """For a hot pipeline with several subscriptions: the same history with only the j-th subscription
+        (the events on the subjects all stay) — what that subscription would have seen ALONE."""
+        subs = [k for k, e in enumerate(case.events) if e == ["sub"]]
+        if len(subs) < 2 or not self._is_hot(case) or any(e[0] == "sub" and len(e) > 1 for e in case.events):
+            return []
+        out = []
+        for j in subs:
+            c = case.copy()
+            c.meta = {"kind": "solo"}
+            c.events = [e for k, e in enumerate(case.events) if e != ["sub"] or k == j]
+            out.append(c)
+        return out
 
     def shrink_candidates(self, case):
         cands = []
